@@ -19,6 +19,7 @@ import (
 	"os"
 	"path/filepath"
 	"strings"
+	"sync"
 
 	"github.com/saucelabs/forwarder/verifhook/mheader"
 
@@ -179,7 +180,8 @@ type vobs struct {
 
 type vrec struct {
 	vcaseJSON
-	Obs vobs `json:"_obs"`
+	Concurrent bool `json:"concurrent,omitempty"` // observed under concurrent use of one modifier; a replay re-runs the stream
+	Obs        vobs `json:"_obs"`
 }
 
 type erec struct {
@@ -234,6 +236,76 @@ func genVcase(r *rng.R) (vcaseJSON, chainGen) {
 		h[kv[0]] = append(h[kv[0]], kv[1])
 	}
 	return vcaseJSON{name, bnd, p.Maj, p.Min, h}, g
+}
+
+// concurrentModifier: one shared ViaModifier used from nG goroutines at once (every client connection runs the
+// modifier on its own goroutine) with chains and versions that differ per goroutine.  Cases handed to Coq: every call
+// whose output is not the sequential concatenation (at most 40) plus a sample; the verdict is Coq's.
+func concurrentModifier(r *rng.R, nG, nIter int) ([]vcaseJSON, []vobs, int) {
+	name, bnd := "forwarder", genHex(r, 20)
+	tag := name + "-" + bnd
+	m := mheader.NewViaModifierWithBoundary(name, bnd)
+	type rec struct {
+		c   vcaseJSON
+		o   vobs
+		odd bool
+	}
+	out := make([][]rec, nG)
+	seeds := make([]uint64, nG)
+	for g := range seeds {
+		seeds[g] = r.U64()
+	}
+	var wg sync.WaitGroup
+	for g := 0; g < nG; g++ {
+		wg.Add(1)
+		go func(g int) {
+			defer wg.Done()
+			lr := rng.New(seeds[g])
+			for i := 0; i < nIter; i++ {
+				var lines []string
+				for l, n := 0, lr.Intn(4); l < n; l++ {
+					lines = append(lines, fmt.Sprintf("1.%d g%d-i%d-l%d-%s", l%2, g, i, l, strings.Repeat("z", 1+lr.Intn(60))))
+				}
+				h := http.Header{}
+				if len(lines) > 0 {
+					h["Via"] = lines
+				}
+				c := vcaseJSON{name, bnd, 1, (g + i) % 2, h}
+				req, _ := http.NewRequest(http.MethodGet, "http://example.com/", http.NoBody)
+				req.ProtoMajor, req.ProtoMinor = c.Maj, c.Min
+				req.Header = h.Clone()
+				var o vobs
+				if err := m.ModifyRequest(req); err != nil {
+					st, _ := mheader.ErrorStatus(err)
+					o = vobs{Refused: true, Status: st, Close: req.Close}
+				} else {
+					o = vobs{Out: req.Header}
+				}
+				want := strings.Join(append(append([]string{}, lines...), fmt.Sprintf("1.%d %s", c.Min, tag)), ", ")
+				odd := o.Refused || len(o.Out["Via"]) != 1 || o.Out["Via"][0] != want
+				if odd || i%(nIter/6+1) == 0 {
+					out[g] = append(out[g], rec{c, o, odd})
+				}
+			}
+		}(g)
+	}
+	wg.Wait()
+	var cs []vcaseJSON
+	var os []vobs
+	odd := 0
+	for g := range out {
+		for _, x := range out[g] {
+			if x.odd {
+				odd++
+				if odd > 40 {
+					continue
+				}
+			}
+			cs = append(cs, x.c)
+			os = append(os, x.o)
+		}
+	}
+	return cs, os, nG * nIter
 }
 
 // corpus: minimised earlier failures and boundary shapes; always runs first
@@ -627,6 +699,7 @@ func writeJSONL(dir, name string, items []any) {
 
 type meta struct {
 	ModifierCases  int            `json:"modifier_cases"`
+	ConcurrentCalls int           `json:"modifier_concurrent_calls"`
 	ModRefused     int            `json:"modifier_refused"`
 	ModForwarded   int            `json:"modifier_forwarded"`
 	ModOwnPlaced   int            `json:"modifier_own_element_placed"`
@@ -663,7 +736,8 @@ func main() {
 			panic(err)
 		}
 		var rp struct {
-			Kind string `json:"kind"`
+			Kind       string `json:"kind"`
+			Concurrent bool   `json:"concurrent"`
 			vcaseJSON
 			ecaseJSON
 		}
@@ -682,10 +756,23 @@ func main() {
 			writeJSONL(*out, "ucases.jsonl", []any{map[string]any{"kind": "stacks", "name": st.Name, "n": st.N, "_obs": map[string]any{"tags": tags[:min(4, len(tags))]}}})
 			m.Shards = []string{"ucases_000.v"}
 			fmt.Printf("replay stacks: %d stacks named %q, first tags %q\n", st.N, st.Name, tags[:min(4, len(tags))])
+		} else if rp.Kind == "modifier" && rp.Concurrent {
+			ccs, cos, n := concurrentModifier(r, 8, 2000)
+			var vc []string
+			var vj []any
+			for i := range ccs {
+				vc = append(vc, coqVcase(ccs[i], cos[i]))
+				vj = append(vj, vrec{ccs[i], true, cos[i]})
+			}
+			writeShard(*out, "vcases", 0, "vcase", "vcase_model_ok", "vcase_prop_ok", vc, noB)
+			writeJSONL(*out, "vcases.jsonl", vj)
+			m.Shards = []string{"vcases_000.v"}
+			m.ShardSize = len(vc)
+			fmt.Printf("replay modifier (concurrent stream): %d calls on one shared modifier, %d cases handed to Coq\n", n, len(vc))
 		} else if rp.Kind == "modifier" {
 			o := runModifier(rp.vcaseJSON)
 			writeShard(*out, "vcases", 0, "vcase", "vcase_model_ok", "vcase_prop_ok", []string{coqVcase(rp.vcaseJSON, o)}, noB)
-			writeJSONL(*out, "vcases.jsonl", []any{vrec{rp.vcaseJSON, o}})
+			writeJSONL(*out, "vcases.jsonl", []any{vrec{rp.vcaseJSON, false, o}})
 			m.Shards = []string{"vcases_000.v"}
 			fmt.Printf("replay modifier: refused=%v status=%d out=%q\n", o.Refused, o.Status, o.Out["Via"])
 		} else {
@@ -724,7 +811,7 @@ func main() {
 		}
 		m.LineHist[fmt.Sprint(len(c.Header["Via"]))]++
 		vc = append(vc, coqVcase(c, o))
-		vj = append(vj, vrec{c, o})
+		vj = append(vj, vrec{c, false, o})
 	}
 	for _, c := range vcorpus() {
 		add(c)
@@ -742,6 +829,16 @@ func main() {
 		m.ModOwnPlaced += g.OwnAt
 		m.ModEmbeds += g.Embeds
 		add(c)
+	}
+	nG, nIter := 8, 2000
+	if *tier == "thorough" {
+		nG, nIter = 16, 20000
+	}
+	ccs, cos, ncalls := concurrentModifier(r, nG, nIter)
+	m.ConcurrentCalls = ncalls
+	for i := range ccs {
+		vc = append(vc, coqVcase(ccs[i], cos[i]))
+		vj = append(vj, vrec{ccs[i], true, cos[i]})
 	}
 	m.ModifierCases = len(vc)
 	for i := 0; i*m.ShardSize < len(vc); i++ {
